@@ -787,9 +787,12 @@ def reply_arms(ctx, L, rule="R-REPLY-ARMS"):
             continue
         gl = lits(r.guards())
         ctl = [x[1] for g, p in gl if p and g[0] == "cmp" and g[1] == "==" and contains(g, d0) for x in (g[2], g[3]) if is_const(x)]
-        arm = "CTS" if cts in ctl else "EOM_ACK" if ack in ctl else None
+        arm = "CTS" if cts in ctl else "EOM_ACK" if ack in ctl else "ABORT" if L.ctl.get("ABORT") in ctl else None
         if arm is None or L.calls(r, "__send_tp_abort"):
             continue
+        if arm == "ABORT" and not any(p and g[0] == "cmp" and g[1] == "==" and any(y[0] == "sub" and y[2] == ("c", "state") for y in (g[2], g[3]))
+                                      for g, p in gl):
+            continue        # no send session of ours waits for that peer's CTS
         stores = {}
         for _, e in r.effects():
             if e.kind == "store" and e.target[0] == "sub" and is_const(e.target[2]) and root_field(e.target) == "_snd_buffer":
@@ -812,6 +815,13 @@ def reply_arms(ctx, L, rule="R-REPLY-ARMS"):
                 miss.append("the first segment of the window (next_packet_to_send) is not taken from the CTS")
             if not woke:
                 miss.append("the job thread is not woken")
+        elif arm == "ABORT":
+            if "state" not in stores or not is_const(stores["state"]):
+                miss.append("the aborted send session is not marked finished")
+            if stores.get("deadline") != TIME:
+                miss.append("its deadline is not set to now")
+            if not woke:
+                miss.append("the job thread is not woken")
         else:
             if not told:
                 miss.append("the originator's listeners are not told about the acknowledge")
@@ -819,7 +829,7 @@ def reply_arms(ctx, L, rule="R-REPLY-ARMS"):
                 miss.append("the send session is not marked finished")
             if not woke:
                 miss.append("the job thread is not woken")
-        key = "%s %s arm (session known%s)" % (L.tag, arm, ", grant > 0" if arm == "CTS" else "")
+        key = "%s %s arm (session known%s)" % (L.tag, arm, ", grant > 0" if arm == "CTS" else ", waiting for CTS" if arm == "ABORT" else "")
         if miss:
             res[key] = (miss, r.recs[-1].ev.node if r.recs else f.node)
         else:
@@ -830,6 +840,6 @@ def reply_arms(ctx, L, rule="R-REPLY-ARMS"):
             ctx.holds(rule, inst)
         else:
             ctx.violated(rule, f, inst, "; ".join(bad[0]) + (": the granted packets are not sent before the responder's T2 expires - the accepted message is "
-                         "lost" if "CTS" in key else ": the acknowledged session keeps the pair busy / the application never learns of the completion"), bad[1])
+                         "lost" if " CTS arm" in key else ": the session keeps the pair busy until its old time-out (a new transfer to that peer is refused meanwhile) / the application never learns of the completion"), bad[1])
     if len(res) < 2:
         ctx.unknown(rule, "%s: CTS / end-of-message-acknowledge arms not found (%d)" % (f.qual, len(res)))
